@@ -195,6 +195,28 @@ def run(ctx):
         ctx.check(okb, "C03:rod:%s.u_to_rod" % short,
                   "u_to_rod(rod_to_u(r)) is %s, not r" % (B.key()[:160] if B is not None else back), core.loc(mod, fn),
                   sample={"reader": "u_to_rod", "writer": "reference Rodrigues matrix", "result": B.key()[:80] if B is not None else ""})
+        # every tolerance band the generic run passed by: rotations further than 1e-6 deg from 180 deg (1 + tr U = 4 sin^2(d/2)
+        # > 3.05e-16) are inside the property's domain, so a wider band must not change the value
+        EXCLUDED = 3.05e-16
+        for q_, t_ in list(_seen):
+            if t_ <= EXCLUDED:
+                continue
+
+            def thr_in(q2, t2, node, q_=q_, t_=t_):
+                return q2.equals(q_) and float(t2) == t_
+            e2 = Evaluator(mod, inline=True, branch_policy=N.skip_checks_policy)
+            e2.threshold_policy = thr_in
+            try:
+                inside_val = e2.call_function("u_to_rod", [Uarr.copy()])
+                Bi = inside_val if isinstance(inside_val, Arr) else materialise(inside_val)
+                same_val = Bi is not None and B is not None and Bi.shape == B.shape and all(scalar(x).equals(scalar(y)) for x, y in zip(Bi.data, B.data))
+                what = "returns %s" % (Bi.key()[:100] if Bi is not None else inside_val)
+            except RaiseReached as r_:
+                same_val, what = False, "raises %s" % exc_name(r_)
+            ctx.check(same_val, "C03:rod:%s.u_to_rod:band" % short,
+                      "when %s < %g -- which includes rotations up to %.2g deg away from 180 deg, inside the property's domain (only 1e-6 deg is "
+                      "excluded) -- u_to_rod %s instead of the Rodrigues vector" % (N.short(q_, 60), t_, 2 * (t_ ** 0.5) * 90 / 3.141592653589793, what),
+                      core.loc(mod, fn))
         # inside the band of a vanishing 1 + tr U: ValueError
         e_, seen = rod_run(True)
         try:
